@@ -45,6 +45,8 @@ func buildSaveDoc(kind string) *document.Document {
 			t.SetCellText(1, 1, "cell")
 		}
 		d.AddHeader(document.HeaderFooterTypeDefault, "header")
+		d.AddHeader(document.HeaderFooterTypeEven, "even pages")
+		d.AddFooterWithPageNumber(document.HeaderFooterTypeFirst, "first page ", false)
 		d.AddFootnote("body", "note")
 	case "large":
 		for i := 0; i < 3; i++ {
